@@ -32,6 +32,8 @@ func c08Alphabet(thorough bool) []string {
 		"sub:A:e1f1:L9:lc:d",   // unknown server entity
 		"sub:A:e1f1:L1lc:ms:d", // wrong requested type
 		"sub:B:e1f1:L1ms:lc:d", // type mismatch with the server
+		"sub:A:e1f1:L1lc:gen:d", // the type Generic requested for features that are not Generic
+		"sub:A:e1f1:L1ms:gen:d", // ... which would even pair a LoadControl client with a Measurement server
 	)
 	for _, v := range valid {
 		a = append(a, "unsub:"+v[0]+":"+v[1]+":"+v[2]+":d")
